@@ -11,6 +11,8 @@ the declared rewrites into it:
   //@ before [#N] <<literal>>    block: text inserted before N-th occurrence
   //@ after  [#N] <<literal>>    block: text inserted after  N-th occurrence
   //@ replace [all] RULE <<from>> => <<to>>      (or block as replacement)
+  //@ replace-span RULE <<start>> <<end>> => <<to>>   (everything from start up to and including the next end)
+  //@ replace-upto RULE <<start>> <<end>> => <<to>>   (same, excluding the end literal)
   //@ attr <<#[verifier::external_body]>>
   //@ canary NAME <<from>> => <<to>>             (stored mutation, must be rejected)
   //@ end
@@ -149,6 +151,12 @@ def parse_template(path):
 
                 def setter(t, rule=rule, pending=pending, cur=cur):
                     cur.replaces.append((False, rule, pending['from'], t))
+            elif d.startswith('replace-span') or d.startswith('replace-upto'):
+                rule = (d.split('@<')[0].split() + ['R?'])[1]
+                lit = _lits(d)
+                if len(lit) != 3:
+                    raise TemplateError('%s:%d replace-span needs start, end and replacement literals' % (path, ln))
+                cur.replaces.append(('upto' if d.startswith('replace-upto') else 'span', rule, (lit[0], lit[1]), lit[2]))
             elif d.startswith('replace'):
                 head = d.split('@<')[0].split()
                 allf = 'all' in head
@@ -364,6 +372,22 @@ def render_extract(ex, mode=None, canary=None, lenient=False):
     # rewrites (declared, literal)
     info['dropped'] = []
     for allf, rule, frm, to in ex.replaces:
+        if allf in ('span', 'upto'):
+            # the text from the (unique) start literal up to and including the next end literal is replaced as a whole
+            st, en = frm
+            a = text.find(st)
+            b = text.find(en, a + len(st)) if a >= 0 else -1
+            if a < 0 or b < 0 or text.count(st) != 1:
+                if lenient:
+                    info['dropped'].append('rewrite %s span %r' % (rule, st[:60]))
+                    continue
+                raise LostAnchor('%s: rewrite %s span not found: %r .. %r' % (ex.name, rule, st, en))
+            if allf == 'upto':
+                en = ''
+            cut = text[a:b + len(en)]
+            text = text[:a] + to + text[b + len(en):]
+            info['rewrites'].append({'rule': rule, 'from': '%s ... %s (%d lines, sha256 %s)' % (st, en, cut.count('\n') + 1, hashlib.sha256(cut.encode()).hexdigest()[:16]), 'to': to, 'count': 1})
+            continue
         n = text.count(frm)
         if n == 0 or (n != 1 and not allf):
             if lenient:
